@@ -25,3 +25,5 @@ Lemma ob_headers_priority_len : headers_priority_len = 5.
 Proof. vm_compute. reflexivity. Qed.
 Lemma ob_push_promise_meta_len : push_promise_meta_len = 4.
 Proof. vm_compute. reflexivity. Qed.
+Lemma ob_data_resplit_at_release : data_resplit_at_release = true.
+Proof. vm_compute. reflexivity. Qed.
